@@ -59,6 +59,7 @@ class WriteLog:
             f = log.real_open(path, mode, *a, **k)
             if str(path) == log.out and ('w' in mode or '+' in mode):
                 log.n += 1
+                log.ops.append(('open', mode))      # ('w' truncates what was at the path; 'r+' keeps it)
                 return H(f, log.n, mode)
             return f
         builtins.open = open_
@@ -115,12 +116,16 @@ def crash_states(events, rng, quick):
                 yield (f'{lab} + footer {f}/{total - pre}', b + stream[pre:pre + f])
 
 
-def op_prefix_states(ops):
+def op_prefix_states(ops, initial=b''):
     """the file as it is on disk after each prefix of the operations performed on it (writes at their positions, truncate /
-    pre-allocation included: a hole reads as zeros)"""
-    cur = bytearray()
+    pre-allocation included: a hole reads as zeros), starting from what was at the path before (`initial`)"""
+    cur = bytearray(initial)
     yield ('0 operations', bytes(cur))
     for k, op in enumerate(ops):
+        if op[0] == 'open':
+            if 'w' in op[1]:
+                del cur[:]
+            continue
         if op[0] == 'write':
             pos, data = op[1], op[2]
             if pos > len(cur):
@@ -163,7 +168,7 @@ def copy_case(ctx, rng, model, kind, cnum):
     ops = [o for o in readcheck.in_range_ops(rng, fi, 1) if o[0] not in ('ilno', 'xlno', 'zsc', 'trc')][:10]
     fields = list(spec.FIELDS)
     truth = probe(out, ops, fields, tcount)
-    desc = {'route': kind, 'n': lay.n, 'bs': lay.bs, 'file_operations': [(o[0], o[1] if o[0] == 'truncate' else (o[1], len(o[2]))) for o in wl.ops][:14]}
+    desc = {'route': kind, 'n': lay.n, 'bs': lay.bs, 'file_operations': [(o[0], o[1] if o[0] in ('truncate', 'open') else (o[1], len(o[2]))) for o in wl.ops][:14]}
     states = list(op_prefix_states(wl.ops))[:-1]
     if len(states) > 40:
         keep = sorted(set([0, 1, 2, 3, len(states) - 1, len(states) - 2, len(states) - 3] + rng.integers(0, len(states), size=20).tolist()))
@@ -251,6 +256,17 @@ def run_(ctx, model):
         q, bs = [(32, (4, 4, -1)), (16, None), (64, (8, 8, -1))][cnum % 3]
         if route in ('2d', 'segy-const'):
             bs = None
+        # (every other case: an older, longer, complete SGZ file of another survey is at the output path already; a
+        #  conversion stopped early must not leave a file that answers with that survey's samples or headers)
+        old_bytes = b''
+        if cnum % 2 == 1:
+            oldp = ctx.path('older_survey.sgz')
+            if not os.path.exists(oldp):
+                conv.numpy_to_sgz(gen.cube(np.random.default_rng(11), (9, 9, 40), rare=False), oldp, 64, (4, 4, -1),
+                                  trace_headers={181: np.arange(81).reshape(9, 9) + 5000, 185: np.arange(81).reshape(9, 9) - 7})
+            old_bytes = open(oldp, 'rb').read()
+            with open(out, 'wb') as f:
+                f.write(old_bytes)
         with WriteLog(out) as wl:
             if route == 'numpy':
                 hd = {181: rng.integers(-99, 99, size=n[:2]), 185: rng.integers(-2 ** 31, 2 ** 31 - 1, size=n[:2])}
@@ -283,6 +299,8 @@ def run_(ctx, model):
         # at an offset): in `thorough` mode count and table are patched before the first footer array is appended
         cur, kinds = 0, []
         for o in wl.ops:
+            if o[0] == 'open':
+                continue
             if o[0] != 'write':
                 kinds.append('T')
             elif o[1] == cur:
@@ -302,6 +320,10 @@ def run_(ctx, model):
         states = list(crash_states(wl.events, rng, ctx.quick))
         if any(o[0] == 'truncate' for o in wl.ops):
             states += list(op_prefix_states(wl.ops))[:-1]
+        if old_bytes:
+            over = list(op_prefix_states(wl.ops, initial=old_bytes))[1:-1]
+            states += [('over an older file: ' + lab, b) for lab, b in over if b != full]
+            desc['older_file_at_output_path'] = len(old_bytes)
         # byte truncations of the finished file
         tr = sorted(set([len(full) - 1, len(full) - 4, len(full) - 512, 8192, 8191, 4096] + rng.integers(1, len(full), size=(ctx.n(6, 60))).tolist()))
         states += [(f'truncate {L}/{len(full)}', full[:L]) for L in tr if 0 < L < len(full)]
